@@ -31,10 +31,14 @@ type stubAlloc struct {
 
 type tagKey struct{}
 
-func ipOf(n int) net.IP { return net.IPv4(10, 9, 0, byte(n)) }
+func ipOf(n int) net.IP  { return net.IPv4(10, 9, 0, byte(n)) }
+func ip6Of(n int) net.IP { return net.IP{0x20, 0x01, 0x0d, 0xb8, 0, 0, 0, 0, 0, 0, 0, 0, 0, 0, 0, byte(n)} }
 func numOf(ip net.IP) int {
 	if v4 := ip.To4(); v4 != nil {
 		return int(v4[3])
+	}
+	if len(ip) == 16 {
+		return int(ip[15])
 	}
 	return -1
 }
@@ -51,7 +55,16 @@ func (a *stubAlloc) AllocateIPv4(ctx context.Context, s *subscriber.Session, poo
 	return nil, nil, nil, fmt.Errorf("exhausted")
 }
 func (a *stubAlloc) AllocateIPv6(ctx context.Context, s *subscriber.Session, pool string) (net.IP, *net.IPNet, error) {
-	return nil, nil, fmt.Errorf("no v6")
+	a.mu.Lock()
+	defer a.mu.Unlock()
+	for n := 2; n <= 4; n++ {
+		if _, used := a.owner[n]; !used {
+			a.owner[n] = s.ID
+			ip := ip6Of(n)
+			return ip, &net.IPNet{IP: ip.Mask(net.CIDRMask(64, 128)), Mask: net.CIDRMask(64, 128)}, nil
+		}
+	}
+	return nil, nil, fmt.Errorf("exhausted")
 }
 func (a *stubAlloc) ReleaseIPv4(ctx context.Context, ip net.IP) error {
 	if tag, ok := ctx.Value(tagKey{}).(string); ok {
@@ -69,7 +82,7 @@ func (a *stubAlloc) ReleaseIPv4(ctx context.Context, ip net.IP) error {
 	delete(a.owner, n)
 	return nil
 }
-func (a *stubAlloc) ReleaseIPv6(ctx context.Context, ip net.IP) error { return nil }
+func (a *stubAlloc) ReleaseIPv6(ctx context.Context, ip net.IP) error { return a.ReleaseIPv4(ctx, ip) }
 
 type pending struct {
 	done chan string
@@ -83,6 +96,7 @@ type run struct {
 	events map[string]int    // terminate events per session id
 	emu    sync.Mutex
 	calls  map[string]*pending
+	v6     bool // the run exercises the IPv6 halves of AssignAddress / TerminateSession (same model: one address per session)
 }
 
 func (comp) NewRun() hx.Run { return &run{} }
@@ -108,7 +122,11 @@ func (r *run) snapshot() string {
 	}
 	sort.Strings(sess)
 	for n := 2; n <= 4; n++ {
-		if s, ok := r.m.GetSessionByIP(ipOf(n)); ok && s != nil {
+		ip := ipOf(n)
+		if r.v6 {
+			ip = ip6Of(n)
+		}
+		if s, ok := r.m.GetSessionByIP(ip); ok && s != nil {
 			byip = append(byip, fmt.Sprintf("%d:%s", n, r.ids[s.ID]))
 		}
 	}
@@ -150,6 +168,7 @@ func (r *run) Do(op string) string {
 	ctx := context.Background()
 	switch f[0] {
 	case "new":
+		r.v6 = len(f) > 1 && f[1] == "v6"
 		r.a = &stubAlloc{owner: map[int]string{}, rel: map[int]int{}, entered: make(chan struct{}, 8), resume: map[string]chan struct{}{}}
 		cfg := subscriber.DefaultManagerConfig()
 		r.m = subscriber.NewManager(cfg, nil, r.a, zap.NewNop())
@@ -183,6 +202,9 @@ func (r *run) Do(op string) string {
 			return "nosuch"
 		}
 
+		if r.v6 {
+			return classify(r.m.AssignAddress(ctx, id, "", "p6")) + " " + r.snapshot()
+		}
 		return classify(r.m.AssignAddress(ctx, id, "p", "")) + " " + r.snapshot()
 	case "touch": // touch s1 activate|wall|unwall : the API calls that write session.State
 		id, ok := r.names[f[1]]
@@ -256,6 +278,9 @@ func (comp) Gen(rg *rand.Rand, tier string, emit func([]string)) {
 	}
 	for i := 0; i < n; i++ {
 		seq := []string{"new"}
+		if i%3 == 2 {
+			seq = []string{"new v6"}
+		}
 		made := 0
 		parked := []string{}
 		ln := 4 + rg.Intn(14)
